@@ -93,6 +93,7 @@ func jstr(v interface{}) string {
 // runScens explores the scenarios of this shard.
 func runScens(prop string, scens []Scen) *ShardResult {
 	t0 := time.Now()
+	selfcheckDiffers := ""
 	res := &ShardResult{Property: prop, Shard: *flagShard, Outcomes: map[string]int{}, Races: map[string]string{}, Extra: map[string]int{}}
 	var deadline time.Time
 	if *flagBudget > 0 {
@@ -165,12 +166,15 @@ func runScens(prop string, scens []Scen) *ShardResult {
 				y := vsched.Run(append([]int(nil), x.Choices...), vsched.Config{Horizon: sc.Horizon}, sc.Body)
 				if sc.Obs(y) != o {
 					// code under test that is itself nondeterministic (e.g. ranges over a map) is judged by the
-					// violation path below when both runs violate; otherwise the harness does not own all choices
+					// violation path below when a run violates; two differing runs that both satisfy the property
+					// mean the harness does not own all choices
 					m1, _ := judgeExec(sc, x)
 					m2, _ := judgeExec(sc, y)
-					if m1 == "" || m2 == "" {
-						res.Infra = fmt.Sprintf("NONDETERMINISM scenario %d: %q vs %q", i, o, sc.Obs(y))
-						return "infra"
+					if m1 == "" && m2 == "" && selfcheckDiffers == "" {
+						// not fatal by itself: when the same run also finds (replay-validated) violations, the code under
+						// test is the likely source (it makes choices of its own); the driver turns this into an
+						// infrastructure error only when no violation is reported anywhere
+						selfcheckDiffers = fmt.Sprintf("NONDETERMINISM-SELFCHECK scenario %d: %q vs %q", i, short(o), short(sc.Obs(y)))
 					}
 				}
 			}
@@ -203,7 +207,8 @@ func runScens(prop string, scens []Scen) *ShardResult {
 			// over a map - then every replay must still violate the property)
 			fails, same := 0, true
 			var obs0 string
-			for k := 0; k < 5; k++ {
+			for k := 0; k < 5 || (fails == 0 && k < 40); k++ {
+				// (up to 40 replays while none has failed: code that makes choices of its own may need a few)
 				y := vsched.Run(f.choices, vsched.Config{Trace: k == 0 && sc.Horizon == 0, Horizon: sc.Horizon}, sc.Body)
 				m, mk := judgeExec(sc, y)
 				o := sc.Obs(y) + "|" + mk
@@ -217,8 +222,15 @@ func runScens(prop string, scens []Scen) *ShardResult {
 					same = false
 				}
 			}
-			if fails != 5 {
-				res.Infra = fmt.Sprintf("NONDETERMINISM: violation %q reproduced on %d of 5 replays (same observation: %v)", f.key, fails, same)
+			switch {
+			case fails == 0:
+				// the execution that violated cannot be reproduced at all under its own schedule: the harness
+				// does not own every choice, nothing it reports is believed
+				res.Infra = fmt.Sprintf("NONDETERMINISM: violation %q reproduced on 0 of 40 replays (same observation: %v)", f.key, same)
+			case fails < 5 || !same:
+				// the schedule replays but the outcome varies: the code under test makes choices of its own (ranging
+				// over a map, say). The violating execution is an execution of the code all the same.
+				v.Msg += fmt.Sprintf(" [reproduced on %d of 5 replays of the recorded schedule: the code under test is not deterministic under a fixed schedule]", fails)
 			}
 			if res.Infra != "" {
 				break
@@ -246,6 +258,9 @@ func runScens(prop string, scens []Scen) *ShardResult {
 		if lastOfBatch {
 			next = claim(*flagQueue) * batch
 		}
+	}
+	if res.Infra == "" && selfcheckDiffers != "" {
+		res.Infra = selfcheckDiffers
 	}
 	res.WallS = time.Since(t0).Seconds()
 	return res
